@@ -405,10 +405,10 @@ theorem map_eq_ok {α β : Type} (x : Except Err α) (f : α → β) (l : β) (h
   | ok a => exact ⟨a, rfl, by simpa [Except.map] using h.symm⟩
   | error e => simp [Except.map] at h
 
-/-- the puckering pre-image always has six plane distances -/
-theorem puckering_zs_length (s : Sys) (i0 i1 i2 i3 i4 i5 : Int) (p : Bool) (r : PuckerPre)
-    (h : puckering s i0 i1 i2 i3 i4 i5 p = .ok r) : r.zs.length = 6 := by
-  have key : ∃ ring, r = puckerOf ring := by
+/-- whatever `Puckering.calculate` returns is `puckerOf` of SOME six points (the ring atoms, or their
+    minimum-image copies around atom 0) -/
+theorem puckering_ok_form (s : Sys) (i0 i1 i2 i3 i4 i5 : Int) (p : Bool) (r : PuckerPre)
+    (h : puckering s i0 i1 i2 i3 i4 i5 p = .ok r) : ∃ ring, r = puckerOf ring := by
     unfold puckering at h
     cases h0 : getAtom s.pos i0 with
     | error e => simp [h0, bind, Except.bind] at h
@@ -452,7 +452,11 @@ theorem puckering_zs_length (s : Sys) (i0 i1 i2 i3 i4 i5 : Int) (p : Bool) (r : 
         exact ⟨_, h.symm⟩
     · simp only [pure, Except.pure, Except.ok.injEq] at h
       exact ⟨_, h.symm⟩
-  obtain ⟨ring, rfl⟩ := key
+
+/-- the puckering pre-image always has six plane distances -/
+theorem puckering_zs_length (s : Sys) (i0 i1 i2 i3 i4 i5 : Int) (p : Bool) (r : PuckerPre)
+    (h : puckering s i0 i1 i2 i3 i4 i5 p = .ok r) : r.zs.length = 6 := by
+  obtain ⟨ring, rfl⟩ := puckering_ok_form s i0 i1 i2 i3 i4 i5 p r h
   rfl
 
 /-- **length stability**: whenever `calculate` returns, the pre-image has the fixed length of its class -/
